@@ -1,5 +1,5 @@
 """C02 — a 'safe' or 'unreachable' assertion verdict is never wrong."""
-import os, random, vlib, cfgprog, bwdcommon
+import os, re, random, vlib, cfgprog, bwdcommon
 
 def run(rep, tier, seed):
     rep.cov["trusted_base"] = [
@@ -29,14 +29,24 @@ def run(rep, tier, seed):
     impl = vlib.run_harness_resilient(hexe, [], cf, len(lines2), 900)
     rng = random.Random(seed)
     hits = 0; nt = 0
+    known = [k for k in vlib.load_known().get("findings", [])
+             if k.get("property") == "C02" and k.get("stream") == "fwd-bwd-verdicts-oracle"]
+    nknown = {}
     for i, l in enumerate(lines2):
         a = impl.get(i, "MISSING")
         w = cfgprog.oracle_verdicts(l, a, rng)
         if cfgprog.nontrivial_verdicts(l, a):
             nt += 1
         if w:
+            kn = [k for k in known if re.search(k["line_regex"], l) and re.search(k.get("witness_regex", ""), w)]
+            if kn:
+                nknown[kn[0]["what"]] = nknown.get(kn[0]["what"], 0) + 1
+                if nknown[kn[0]["what"]] == 1:
+                    rep.known_finding("%s [first of this class: %s]" % (kn[0]["what"], w[:400]))
+                continue
             hits += 1
             if hits <= 2:
                 rep.violation("fb-verdicts-%d" % i, "FAILING INPUT: " + w + "\ninput: " + l + "\nimplementation: " + a, True)
-    rep.cov["streams"]["fwd-bwd-verdicts-oracle"] = {"cases": len(lines2), "oracle_violations": hits, "distinct_nontrivial": nt}
+    rep.cov["streams"]["fwd-bwd-verdicts-oracle"] = {"cases": len(lines2), "oracle_violations": hits, "distinct_nontrivial": nt,
+                                                  "known_finding_hits": sum(nknown.values())}
     rep.cov["evaluations"] += len(lines2)
